@@ -104,6 +104,8 @@ def install_state(ns):
 
 def restore_pristine():
     install_state([_copy1(v) for v in _PRISTINE])
+    _TIDX[0] = 0
+    SimFuture._SEQ[0] = 0
 
 
 def switch_hook(old_proc, new_proc):
@@ -458,6 +460,11 @@ class SimPool:
         self.terminated = True
         for w in self.workers:
             S.kill(w)
+        # threads started inside a worker process die with it
+        procs = {id(w.proc) for w in self.workers}
+        for a in list(S.actors):
+            if a.tidx and id(a.proc) in procs and not a.done and not a.killed:
+                S.kill(a)
         # feeders of this pool die with it
         for a in list(S.actors):
             if a.name == 'feeder' and not a.done and not a.killed:
@@ -644,12 +651,22 @@ class SimProc:
                 return (e if self._cap_out else None,
                         e if self._cap_err else None)
             if self._text:
+                for x in (self._out, self._err):
+                    if any('\udc80' <= ch <= '\udcff' for ch in x):
+                        raise UnicodeDecodeError('utf-8', b'\xff', 0, 1,
+                                                 'invalid start byte')
+
                 def tr(x):
                     return x.replace('\r\n', '\n').replace('\r', '\n')
                 return (tr(self._out) if self._cap_out else None,
                         tr(self._err) if self._cap_err else None)
-            return (self._out.encode() if self._cap_out else None,
-                    self._err.encode() if self._cap_err else None)
+            # lone surrogates in a model's stream stand for bytes that are
+            # not valid UTF-8 (what a solver printing Latin-1 text or binary
+            # data produces)
+            return (self._out.encode('utf-8', 'surrogateescape')
+                    if self._cap_out else None,
+                    self._err.encode('utf-8', 'surrogateescape')
+                    if self._cap_err else None)
         CTX.rec.on_done(self, True)
         raise _real_subprocess.TimeoutExpired(self.args, timeout)
 
@@ -829,7 +846,384 @@ class _OsForTmpfiles:
         return me.proc.vpid if me is not None else 1
 
 
+# ---------------------------------------------------------------------------
+# threads started by the program under test (threading / concurrent.futures)
+# ---------------------------------------------------------------------------
+# The unchanged ddSMT starts no thread of its own (the pool's task-handler
+# thread is modelled by SimPool's feeder).  A change that does - "run the
+# command and the cross-check command at the same time" - must not escape the
+# scheduler: such threads become actors of the same simulated process.
+
+_TIDX = [0]
+
+
+def _spawn_thread(fn, label):
+    S = CTX.S
+    _TIDX[0] += 1
+    me = S.me()
+    a = S.spawn(f'{me.name if me else "?"}.{label}{_TIDX[0]}', fn)
+    a.tidx = _TIDX[0]
+    return a
+
+
+class SimLock:
+    """threading.Lock / RLock whose waiting is a blocking point of the
+    scheduler (a real lock held across a yield point would stall the baton)."""
+
+    def __init__(self, reentrant=False):
+        self._owner = None
+        self._depth = 0
+        self._re = reentrant
+
+    def acquire(self, blocking=True, timeout=-1):
+        S = CTX.S
+        me = S.me() if S is not None else None
+        if self._re and self._owner is me and self._depth:
+            self._depth += 1
+            return True
+        if S is not None and me is not None:
+            S.yield_('lock.acquire')
+            if self._depth and not blocking:
+                return False
+            if self._depth:
+                S.block(lambda: not self._depth, 'lock.wait')
+        self._owner = me
+        self._depth = 1
+        return True
+
+    def release(self):
+        self._depth -= 1
+        if self._depth <= 0:
+            self._depth = 0
+            self._owner = None
+
+    def locked(self):
+        return bool(self._depth)
+
+    __enter__ = acquire
+
+    def __exit__(self, *a):
+        self.release()
+        return False
+
+
+class SimThreadEvent:
+
+    def __init__(self):
+        self._flag = False
+
+    def is_set(self):
+        return self._flag
+
+    def set(self):
+        if CTX.S is not None and CTX.S.me() is not None:
+            CTX.S.yield_('tevent.set')
+        self._flag = True
+
+    def clear(self):
+        self._flag = False
+
+    def wait(self, timeout=None):
+        S = CTX.S
+        if self._flag or S is None or S.me() is None:
+            return self._flag
+        if timeout is None:
+            S.block(lambda: self._flag, 'tevent.wait')
+            return True
+        fired = []
+        h = S.at(S.clock + timeout, lambda: fired.append(1))
+        S.block(lambda: self._flag or fired, 'tevent.wait', timeout)
+        S.cancel(h)
+        return self._flag
+
+
+class SimThread:
+    """threading.Thread: the target runs as an actor of the same process."""
+
+    def __init__(self, group=None, target=None, name=None, args=(),
+                 kwargs=None, daemon=None):
+        self._target = target
+        self._args = args
+        self._kwargs = kwargs or {}
+        self.name = name or 'Thread'
+        self.daemon = bool(daemon)
+        self._actor = None
+        self._finished = False
+        self.ident = None
+
+    def run(self):
+        if self._target is not None:
+            self._target(*self._args, **self._kwargs)
+
+    def _body(self):
+        try:
+            self.run()
+        except Exception:  # as threading.excepthook
+            import traceback as _tb
+            print(f'Exception in thread {self.name}:', file=sys.stderr)
+            _tb.print_exc(file=sys.stderr)
+        finally:
+            self._finished = True
+
+    def start(self):
+        S = CTX.S
+        S.yield_('thread.start')
+        CTX.rec.count('threads_started_by_program')
+        self._actor = _spawn_thread(self._body, 't')
+        self.ident = 140000000000000 + 4096 * self._actor.tidx
+
+    def is_alive(self):
+        return self._actor is not None and not self._finished and \
+            not self._actor.killed
+
+    def join(self, timeout=None):
+        S = CTX.S
+        if self._actor is None:
+            raise RuntimeError('cannot join thread before it is started')
+        done = lambda: self._finished or self._actor.killed  # noqa: E731
+        if timeout is None:
+            S.block(done, 'thread.join')
+            return
+        fired = []
+        h = S.at(S.clock + timeout, lambda: fired.append(1))
+        S.block(lambda: done() or fired, 'thread.join', timeout)
+        S.cancel(h)
+
+
+class SimFuture:
+    _SEQ = [0]
+
+    def __init__(self):
+        self._state = 'pending'
+        self._result = None
+        self._exc = None
+        self._cbs = []
+        self.seq = None
+        self._actor = None
+
+    def done(self):
+        return self._state in ('finished', 'cancelled')
+
+    def running(self):
+        return self._state == 'running'
+
+    def cancelled(self):
+        return self._state == 'cancelled'
+
+    def cancel(self):
+        if self._state == 'pending':
+            self._state = 'cancelled'
+            SimFuture._SEQ[0] += 1
+            self.seq = SimFuture._SEQ[0]
+            return True
+        return self._state == 'cancelled'
+
+    def _finish(self, result=None, exc=None):
+        self._result, self._exc = result, exc
+        SimFuture._SEQ[0] += 1
+        self.seq = SimFuture._SEQ[0]
+        self._state = 'finished'
+        for cb in self._cbs:
+            try:
+                cb(self)
+            except Exception:
+                pass
+
+    def add_done_callback(self, fn):
+        if self.done():
+            fn(self)
+        else:
+            self._cbs.append(fn)
+
+    def _wait(self, timeout):
+        S = CTX.S
+        if self.done():
+            return
+        if timeout is None:
+            S.block(self.done, 'future.wait')
+            return
+        fired = []
+        h = S.at(S.clock + timeout, lambda: fired.append(1))
+        S.block(lambda: self.done() or fired, 'future.wait', timeout)
+        S.cancel(h)
+        if not self.done():
+            import concurrent.futures as _cf
+            raise _cf.TimeoutError()
+
+    def result(self, timeout=None):
+        self._wait(timeout)
+        if self._state == 'cancelled':
+            import concurrent.futures as _cf
+            raise _cf.CancelledError()
+        if self._exc is not None:
+            raise self._exc
+        return self._result
+
+    def exception(self, timeout=None):
+        self._wait(timeout)
+        return self._exc
+
+
+class SimThreadPoolExecutor:
+    """concurrent.futures.ThreadPoolExecutor: at most max_workers actors of
+    the calling process; a queued call starts when a worker is free."""
+
+    def __init__(self, max_workers=None, thread_name_prefix='',
+                 initializer=None, initargs=()):
+        self._max = max_workers or 4
+        self._queue = []
+        self._running = 0
+        self._shutdown = False
+        self._init = (initializer, initargs)
+
+    def _start_next(self):
+        while self._queue and self._running < self._max:
+            fut, fn, a, k = self._queue.pop(0)
+            if fut.cancelled():
+                continue
+            self._running += 1
+            fut._state = 'running'
+
+            def body(fut=fut, fn=fn, a=a, k=k):
+                try:
+                    if self._init[0] is not None:
+                        self._init[0](*self._init[1])
+                    r = fn(*a, **k)
+                except Exception as e:
+                    CTX.S.yield_('future.done')
+                    fut._finish(exc=e)
+                else:
+                    CTX.S.yield_('future.done')
+                    fut._finish(result=r)
+                finally:
+                    self._running -= 1
+                    if fut._state == 'running':
+                        # the actor was killed before the call returned
+                        fut._state = 'cancelled'
+                    else:
+                        self._start_next()
+
+            fut._actor = _spawn_thread(body, 'f')
+
+    def submit(self, fn, /, *args, **kwargs):
+        if self._shutdown:
+            raise RuntimeError('cannot schedule new futures after shutdown')
+        S = CTX.S
+        S.yield_('executor.submit')
+        CTX.rec.count('threads_started_by_program')
+        fut = SimFuture()
+        self._queue.append((fut, fn, args, kwargs))
+        self._start_next()
+        return fut
+
+    def map(self, fn, *iterables, timeout=None, chunksize=1):
+        futs = [self.submit(fn, *a) for a in zip(*iterables)]
+
+        def gen():
+            for f in futs:
+                yield f.result(timeout)
+
+        return gen()
+
+    def shutdown(self, wait=True, cancel_futures=False):
+        self._shutdown = True
+        if cancel_futures:
+            for fut, *_ in self._queue:
+                fut.cancel()
+            self._queue.clear()
+        if wait and CTX.S is not None and CTX.S.me() is not None:
+            CTX.S.block(lambda: self._running == 0 and not self._queue,
+                        'executor.shutdown')
+
+    def __enter__(self):
+        return self
+
+    def __exit__(self, *a):
+        self.shutdown(wait=True)
+        return False
+
+
+def sim_as_completed(fs, timeout=None):
+    fs = list(fs)
+    S = CTX.S
+    pending = set(fs)
+    fired = []
+    h = S.at(S.clock + timeout, lambda: fired.append(1)) \
+        if timeout is not None else None
+    try:
+        while pending:
+            S.block(lambda: any(f.done() for f in pending) or fired,
+                    'futures.as_completed')
+            ready = sorted((f for f in pending if f.done()),
+                           key=lambda f: f.seq)
+            if not ready:
+                import concurrent.futures as _cf
+                raise _cf.TimeoutError()
+            for f in ready:
+                pending.discard(f)
+                yield f
+    finally:
+        if h is not None:
+            S.cancel(h)
+
+
+def sim_wait(fs, timeout=None, return_when='ALL_COMPLETED'):
+    import collections as _c
+    fs = set(fs)
+    S = CTX.S
+
+    def cond():
+        d = [f for f in fs if f.done()]
+        if return_when == 'FIRST_COMPLETED':
+            return bool(d)
+        if return_when == 'FIRST_EXCEPTION' and any(
+                f._exc is not None for f in d):
+            return True
+        return len(d) == len(fs)
+
+    fired = []
+    h = S.at(S.clock + timeout, lambda: fired.append(1)) \
+        if timeout is not None else None
+    S.block(lambda: cond() or fired, 'futures.wait')
+    if h is not None:
+        S.cancel(h)
+    done = {f for f in fs if f.done()}
+    return _c.namedtuple('DoneAndNotDoneFutures', 'done not_done')(
+        done, fs - done)
+
+
+class FakeFutures:
+    """Stand-in for the module concurrent.futures."""
+    ThreadPoolExecutor = SimThreadPoolExecutor
+    Future = SimFuture
+    as_completed = staticmethod(sim_as_completed)
+    wait = staticmethod(sim_wait)
+    FIRST_COMPLETED = 'FIRST_COMPLETED'
+    FIRST_EXCEPTION = 'FIRST_EXCEPTION'
+    ALL_COMPLETED = 'ALL_COMPLETED'
+
+    def __getattr__(self, name):
+        import concurrent.futures as _cf
+        return getattr(_cf, name)
+
+
+class FakeConcurrent:
+    """Stand-in for the package ``concurrent``."""
+    futures = FakeFutures()
+
+
 class _ThreadingForTmpfiles:
+    """Stand-in for the module ``threading`` in every ddsmt module."""
+    Thread = SimThread
+    Event = SimThreadEvent
+
+    @staticmethod
+    def Lock():
+        return SimLock()
+
+    @staticmethod
+    def RLock():
+        return SimLock(reentrant=True)
 
     def __getattr__(self, name):
         import threading
@@ -838,8 +1232,11 @@ class _ThreadingForTmpfiles:
     @staticmethod
     def get_ident():
         # after fork the only thread of a worker is its main thread; all
-        # processes report the same ident
-        return 140000000000000
+        # processes report the same ident.  Threads started by the program
+        # inside a process get idents of their own.
+        S = CTX.S
+        me = S.me() if S is not None else None
+        return 140000000000000 + 4096 * (me.tidx if me is not None else 0)
 
 
 # ---------------------------------------------------------------------------
